@@ -621,32 +621,81 @@ def check_json_safety(ctx):
                samples=[cases[0][:200], cases[-1][:200]])
 
 
-DEPTH_SIG = "json-nesting-depth-stack-exhaustion"
+DEPTH_SIG = "json-nesting-depth-stack-exhaustion"      # known finding F11 (known_findings.json)
+STACK_LIMIT = 8 * 1024 * 1024
+
+
+def _run_limited(exe, case, timeout=120):
+    """Run one case in a child whose stack limit is exactly 8 MiB (independent of the caller's ulimit).
+    -> (returncode, stdout lines, stderr)"""
+    import resource
+    import subprocess
+
+    def limit():
+        resource.setrlimit(resource.RLIMIT_STACK, (STACK_LIMIT, STACK_LIMIT))
+    p = subprocess.Popen([exe], stdin=subprocess.PIPE, stdout=subprocess.PIPE, stderr=subprocess.PIPE, preexec_fn=limit)
+    try:
+        o, e = p.communicate((case + "\n").encode(), timeout=timeout)
+    except subprocess.TimeoutExpired:
+        p.kill()
+        o, e = p.communicate()
+        return 124, o.decode("utf-8", "replace").splitlines(), "timeout"
+    return p.returncode, o.decode("utf-8", "replace").splitlines(), e.decode("utf-8", "replace")
 
 
 def check_json_depth(ctx):
-    """skip_value <-> skip_array/skip_object recurse once per nesting level without a limit; on the
-    -O2 build one level costs 32 bytes of stack, so ~262,000 unclosed brackets exhaust an 8 MiB stack.
-    The Coq model has no stack, so this is outside the theorem; the probe runs the real code.
-    It is reported under the signature DEPTH_SIG and is only run once known_findings.json lists that
-    signature (until the coordinator has decided, the unchanged tree must not raise it)."""
+    """Nesting depth on the real code (the Gallina model has no stack, so the theorems say nothing here;
+    the extracted model is also quadratic in the document size, so the expected answers below come from
+    the generator's own bookkeeping).
+
+    skip_value <-> skip_array/skip_object recurse once per nesting level without a limit; the -O2 build
+    uses 32 bytes of stack per level, so about 262,144 unclosed brackets exhaust an 8 MiB stack.
+      depth  20,000 (ASan build and -O2 build): must return the right offset       -> ordinary violation if not
+      depth 100,000 (-O2 build, 8 MiB stack):   must return                        -> ordinary violation if not
+                                                (stack use per level would have more than doubled)
+      depth 262,500 (-O2 build, 8 MiB stack):   dies by SIGSEGV today              -> known finding F11, signature DEPTH_SIG;
+                                                nothing is emitted if it returns (e.g. after a depth limit was added)."""
     sub = "json.depth"
-    listed = any(f.get("signature") == DEPTH_SIG for f in vlib.load_known().get("findings", []))
-    if not listed:
-        ctx.notes.append("json.depth: nesting-depth probe not run (signature %s not listed in known_findings.json)" % DEPTH_SIG)
+    aexe, err = vlib.build_c("drv_json_asan", "drv_json.c", ["util/json.c"], asan=True,
+                             cflags=["-fno-builtin-memcmp", "-fno-builtin-strchr"])
+    exe, err2 = vlib.build_c("drv_json_plain", "drv_json.c", ["util/json.c"], asan=False)
+    if not aexe or not exe:
+        ctx.fail(sub, "build", "", "C driver does not build: " + (err or err2 or ""))
         return
-    exe, err = vlib.build_c("drv_json_plain", "drv_json.c", ["util/json.c"], asan=False)
-    if not exe:
-        ctx.fail(sub, "build", "", "C driver does not build: " + err)
-        return
-    for depth, unit in [(1000000, b"["), (400000, b'{"a":')]:
-        doc = b'{"a":' + unit * depth
-        rc, out, err = vlib.run_lines(exe, "find %s 62\n" % doc.hex(), timeout=120)
+
+    def run(e, desc, doc, key, want, signature=None, ordinary=True):
+        rc, out, er = _run_limited(e, "find %s %s" % (hx(doc), hx(key)))
         ctx.evaluations += 1
-        if rc != 0 or out != ["ok %d" % len(doc)]:
-            ctx.fail(sub, "crash", "find <'{\"a\":' + %r * %d> 62" % (unit, depth),
-                     "driver rc=%d output=%r (stack exhaustion by unbounded recursion)" % (rc, out[:1]),
-                     property_fails=True, signature=DEPTH_SIG)
+        ctx.traces_validated += 1
+        ctx.count("json.depth.cases")
+        died = rc != 0 or not out
+        if died:
+            if signature or ordinary:
+                ctx.fail(sub, "crash", desc, "driver rc=%d, no result (rc<0 = killed by that signal; 8 MiB stack): %s"
+                         % (rc, (er.strip().splitlines() or [""])[0][:160]), property_fails=True, signature=signature)
+            return False
+        if want is not None and out[0] != want:
+            ctx.fail(sub, "property", desc, "impl=%s expected=%s" % (out[0], want), property_fails=True)
+            return False
+        ctx.nontrivial.add(sub + ":" + desc)
+        return True
+
+    d = 20000
+    opened = b'{"a":' + b"[" * d                                   # unbalanced: nothing found, end returned
+    closed = b'{"a":' + b"[" * d + b"]" * d + b' , "b":1}'          # balanced: b found behind the deep value
+    objs = b'{"a":' + b'{"a":' * d + b"1" + b"}" * d + b',"b":1}'
+    for e, nm in ((aexe, "ASan build"), (exe, "-O2 build")):
+        run(e, "find <'{\"a\":' + 20000 x '['> b  (%s)" % nm, opened, b"b", "ok %d" % len(opened))
+        run(e, "find <'{\"a\":' + 20000 x '[' + 20000 x ']' + ' , \"b\":1}'> b  (%s)" % nm, closed, b"b", "ok %d" % (len(closed) - 2))
+        run(e, "find <'{\"a\":' + 20000 x '{\"a\":' + '1' + 20000 x '}' + ',\"b\":1}'> b  (%s)" % nm, objs, b"b", "ok %d" % (len(objs) - 2))
+    doc = b'{"a":' + b"[" * 100000
+    ok = run(exe, "find <'{\"a\":' + 100000 x '['> b  (-O2 build, 8 MiB stack)", doc, b"b", "ok %d" % len(doc))
+    if ok:
+        doc = b'{"a":' + b"[" * 262500
+        run(exe, "find <'{\"a\":' + 262500 x '['> b  (-O2 build, 8 MiB stack; see corpus/json/deep_nesting.gen)", doc, b"b", None,
+            signature=DEPTH_SIG, ordinary=False)
+    ctx.rules.append(sub + ": nesting 20000 (both builds, expected offsets from the generator), 100000 and 262500 (known finding F11) "
+                     "on the -O2 build in a child with RLIMIT_STACK = 8 MiB")
 
 
 SUBCHECKS = {"C15": [check_json_safety, check_json_depth], "C17": [check_json_find]}
